@@ -25,6 +25,9 @@ import DracoProps.C04
                              x = 0x3aa33f2e, min = 0x3a6585a5, range = 0x39c1f16e, bits = 23
                              gives k = 8388608 = 2^23; reproduced by the C++ driver.)
   * `decodeParameters_encodeParameters_roundtrip`  the 4·n+5 byte parameter record round-trips.
+  * `requantize_grid_point`, `decode_encode_idempotent`  exact arithmetic: grid points are fixed
+                             points; decode ∘ encode is idempotent (re-encoding a decoded geometry
+                             with the same parameters changes nothing).
 
   Exactly what holds for `k ≤ 2^bits-1` (slice c08plus):
   * relative-error model (`RoundingModel`, `u = 2^-24`): true for `bits ≤ 20`
@@ -207,6 +210,37 @@ example : @decodeParameters (Fin (2^32)) bitsOps 2
   @decodeParameters_encodeParameters_roundtrip (Fin (2^32)) bitsOps bitsOps_roundtrip
     ⟨[⟨0x3dcccccd, by decide⟩, ⟨0xc0000000, by decide⟩], ⟨0x3dcccccd, by decide⟩⟩ 23
     (by decide) (by decide) [7, 9]
+
+/-- Exact arithmetic: every grid point is a fixed point of the codec — re-quantizing the decoded
+    value of ANY integer `k` with the same three parameters gives `k` back. (Not claimed for
+    float32: there `quantize (dequantize k)` is only tied to the code case by case, by the
+    driver op `qattr`.) -/
+theorem requantize_grid_point (p : QParams ℚ) (bits c : Nat) (k : Int) (hq : 1 ≤ bits)
+    (hR : 0 < p.range) :
+    @quantize ℚ exactOps p bits c (@dequantize ℚ exactOps p bits c k) = k := by
+  rw [quantize_exact, dequantize_exact]
+  have hM : (0:ℚ) < (2:ℚ)^bits - 1 := lt_of_lt_of_le one_pos (maxQ_ge_one hq)
+  have e : ((k:ℚ) * (p.range / ((2:ℚ)^bits - 1)) + @minOf ℚ exactOps p c - @minOf ℚ exactOps p c)
+      * (((2:ℚ)^bits - 1) / p.range) + 1/2 = (k:ℚ) + 1/2 := by
+    field_simp
+    ring
+  rw [e, Int.floor_intCast_add]
+  norm_num
+
+/-- Exact arithmetic: decode ∘ encode is idempotent — a geometry that already went through the
+    codec with `(origin, range, bits)` is reproduced exactly when encoded again with the same
+    parameters, so a decoded geometry and a fresh one still agree on shared vertices. No box
+    hypothesis: holds for coordinates outside `[origin, origin + range]` as well. -/
+theorem decode_encode_idempotent (p : QParams ℚ) (bits c : Nat) (x : ℚ) (hq : 1 ≤ bits)
+    (hR : 0 < p.range) :
+    @dequantize ℚ exactOps p bits c (@quantize ℚ exactOps p bits c
+      (@dequantize ℚ exactOps p bits c (@quantize ℚ exactOps p bits c x)))
+      = @dequantize ℚ exactOps p bits c (@quantize ℚ exactOps p bits c x) := by
+  rw [requantize_grid_point p bits c _ hq hR]
+
+/-- non-vacuity: origin 1/3, range 7/2, 5 bits, k = 17 -/
+example : @quantize ℚ exactOps ⟨[1/3], 7/2⟩ 5 0 (@dequantize ℚ exactOps ⟨[1/3], 7/2⟩ 5 0 17) = 17 :=
+  requantize_grid_point ⟨[1/3], 7/2⟩ 5 0 17 (by norm_num) (by show (0:ℚ) < 7/2; norm_num)
 
 end Quant
 end Draco
